@@ -292,6 +292,16 @@ func (o *osLockRun) failingOpen(kind int) bool {
 				binary.LittleEndian.PutUint32(b[offChecksum:], HeaderChecksum(b))
 			})
 		}
+	case 8:
+		// the path does not exist: Open creates the file, the creation fails
+		name = "creation fails: invalid page size"
+		os.Remove(o.path)
+		opts.PageSize = 3000
+	case 9:
+		name = "creation fails: preallocation refused by the file system"
+		os.Remove(o.path)
+		opts.MaxSize = 1 << 62
+		opts.Prealloc = true
 	}
 	var f *txfile.File
 	var err error
@@ -380,7 +390,7 @@ func runOSLockCase(c *core.Case) *core.Result {
 			}
 			o.secondOpen()
 		case 2:
-			o.failingOpen(r.Intn(8))
+			o.failingOpen(r.Intn(10))
 		case 3:
 			if o.f == nil && !o.open() {
 				break
@@ -529,7 +539,7 @@ func init() {
 	core.Register(&core.Check{
 		ID:          "C18",
 		Level:       "exploration",
-		Rule:        "case = PRNG sequence of open / second open / open with wait flag / failing open (invalid options, both headers damaged, truncated file, out-of-range free-list and overwrite-map roots, too small max size, invalid max-size update, garbage page size) / close on one path of the real OS file system; oracle = while open a second Open fails with a lock error and an independent flock on <path>.lock fails; a waiting Open returns (logical clock) only after the first Close was called; after Close and after EVERY failed Open an independent TryLock succeeds immediately and a plain Open is not refused; thorough additionally runs a helper process under `strace -e inject=` failing pwrite/fsync/mmap/ftruncate/fstat/flock/openat during initialisation, followed by a fault-free Open in the same process; distinct = hash of step sequence; non-trivial = >=4 steps",
+		Rule:        "case = PRNG sequence of open / second open / open with wait flag / failing open (invalid options, both headers damaged, truncated file, out-of-range free-list and overwrite-map roots, too small max size, invalid max-size update, garbage page size, failing creation of a new file: invalid page size / preallocation refused) / close on one path of the real OS file system; oracle = while open a second Open fails with a lock error and an independent flock on <path>.lock fails; a waiting Open returns (logical clock) only after the first Close was called; after Close and after EVERY failed Open an independent TryLock succeeds immediately and a plain Open is not refused; thorough additionally runs a helper process under `strace -e inject=` failing pwrite/fsync/mmap/ftruncate/fstat/flock/openat during initialisation, followed by a fault-free Open in the same process; distinct = hash of step sequence; non-trivial = >=4 steps",
 		Assumptions: []string{"advisory flock semantics of the sandbox's file system", "strace syscall injection (thorough tier) may hit the Go runtime instead of txfile: such runs are inconclusive"},
 		NumCases:    func(t string) int { return tierN(t, 200, 5300) },
 		Run: func(c *core.Case) *core.Result {
